@@ -670,14 +670,18 @@ Definition decorators : list derive :=
 Definition has (l : list derive) (d : derive) : bool := existsb (derive_eqb d) l.
 Definition push_missing (l : list derive) (d : derive) : list derive := if has l d then l else l ++ [d].
 
-(* lower/decl.rs extract_derives: Eq pulls PartialEq; Ord pulls PartialOrd, Eq, PartialEq *)
-Definition extract_derives (l : list derive) : list derive :=
+(* lower/decl.rs extract_derives: Eq pulls PartialEq; Ord pulls PartialOrd, Eq, PartialEq; PartialOrd pulls
+   PartialEq (`if has(PartialOrd) && !has(PartialEq) { push }` is [push_missing] under the test) *)
+Definition extract_derives0 (l : list derive) : list derive :=
   let l1 := if has l DEq && negb (has l DPartialEq) then l ++ [DPartialEq] else l in
   if has l1 DOrd then
     let l2 := push_missing l1 DPartialOrd in
     let l3 := push_missing l2 DEq in
     push_missing l3 DPartialEq
   else l1.
+Definition extract_derives (l : list derive) : list derive :=
+  let l2 := extract_derives0 l in
+  if has l2 DPartialOrd then push_missing l2 DPartialEq else l2.
 
 (* lower_model / lower_class: always Debug, Clone, FieldInfo, IncanClass *)
 Definition lower_derives (l : list derive) : list derive :=
@@ -708,12 +712,16 @@ Fixpoint powerset {A} (l : list A) : list (list A) :=
   | x :: l' => map (cons x) (powerset l') ++ powerset l'
   end.
 
-(* known-finding classes on requested decorator lists *)
-Definition Known_C20_partialord_without_partialeq (req : list derive) : Prop :=
-  has req DPartialOrd = true /\ has req DPartialEq = false /\ has req DEq = false /\ has req DOrd = false.
-Definition known_partialordb (req : list derive) : bool :=
+(* classes on requested decorator lists. [partialord_alone] was the class of the repaired finding
+   derive-partialord (kept for the regression theorem); Display is still a known finding *)
+Definition partialord_alone (req : list derive) : bool :=
   has req DPartialOrd && negb (has req DPartialEq) && negb (has req DEq) && negb (has req DOrd).
 Definition Known_C20_derive_display (req : list derive) : Prop := has req DDisplay = true.
+
+(* to_json / from_json are generated by emit_impl for every model and class (an impl block is lowered for both,
+   with or without methods): flags code = (to_json emitted ? 1 : 0) + (from_json emitted ? 2 : 0) *)
+Definition json_methods_code (e : list derive) : Z :=
+  (if has e DSerialize then 1 else 0) + (if has e DDeserialize then 2 else 0).
 
 (* ------------------------------------------------------------------ rendering for the correspondence run *)
 
